@@ -31,4 +31,7 @@ def run(out, tier):
     eng = mirrun.load_engine(out)
     folder.run_f2(out, eng)
     folder.run_transform(out, eng)
-    kani.run_family(out, F1 + TWINS, expect_fail=TWINS, tier=tier)
+    names = F1 + (F1_THOROUGH if tier == "thorough" else [])
+    if tier == "thorough":
+        out.bounds.append("thorough: EXP with base 0, 1, 2 and a fully symbolic 256-bit exponent through the real multiplier (unwind 258)")
+    kani.run_family(out, names + TWINS, expect_fail=TWINS, tier=tier, timeout_s=150 if tier == "quick" else 1500)
